@@ -50,6 +50,7 @@ impl Client {
         cmd.env_remove("LD_PRELOAD").env_remove("A2KIT_VERIF_LOG").env_remove("A2KIT_VERIF_SCHED");
         cmd.env("RUST_BACKTRACE", "0");
         for (k, v) in envs { cmd.env(k, v); }
+        crate::util::die_with_parent(&mut cmd);
         let mut child = cmd.spawn().ok()?;
         let stdin = child.stdin.take();
         let stdout = child.stdout.take()?;
